@@ -275,6 +275,16 @@ def subst_loaded(t, mapping):
     return tuple(subst_loaded(x, mapping) if isinstance(x, tuple) and x and isinstance(x[0], str) else x for x in t)
 
 
+def trip_counts_nonneg(t):
+    """rewrite every `$loop_end(0, X, 1, <)` (the end value of `for (i = 0; i < X; ++i)`) to X: valid where X >= 0, i.e. for
+    the dimension terms of constructors and key generators (dimensions are >= 1 throughout)"""
+    if not isinstance(t, tuple) or not t:
+        return t
+    m = {st: st[2][1] for st in subterms(t)
+         if st[0] == "call" and st[1] == "$loop_end" and st[2][0] == ZERO and st[2][2] == I(1) and st[2][3] == I(0)}
+    return rewrite(t, m) if m else t
+
+
 def atoms_top(t):
     """atoms occurring as factors of the monomials of t (not their sub-terms)"""
     out = set()
